@@ -100,7 +100,8 @@ def tool_for(host):
     if host == 'linux-real':
         return {'tp': tool.tp_mod, 'pk': tool.pk_mod, 'bsd': tool.bsd}
     if host not in _copies:
-        mods = tool.reload_for_host(fake_modules(host))
+        with host_environment(host):       # what the library reads from its host when it is imported is the simulated host's
+            mods = tool.reload_for_host(fake_modules(host))
         _copies[host] = {'tp': mods['pykdebugparser.traces_parser'], 'pk': mods['pykdebugparser.pykdebugparser'],
                          'bsd': mods['pykdebugparser.trace_handlers.bsd']}
     return _copies[host]
@@ -108,13 +109,16 @@ def tool_for(host):
 
 # ---- the rest of a host: its time zone and files at well-known system paths -------------------------------------------
 HOST_TZ = {'linux-real': None, 'darwin': 'PST8PDT', 'scrambled-1': 'XJT-9', 'scrambled-2': 'XNP-5:45', 'sparse': 'UTC0'}
+# the host's text encodings (file-system / locale): what an interpreter on that host reports
+HOST_ENC = {'linux-real': None, 'darwin': ('utf-8', 'surrogateescape'), 'scrambled-1': ('ascii', 'strict'),
+            'scrambled-2': ('latin-1', 'surrogateescape'), 'sparse': ('cp1252', 'replace')}
 SYSTEM_TRACE_CODES = '/usr/share/misc/trace.codes'
 EXTRA_CODES = '0xf1230000\tHOST_ONLY_CODE_A\n0xf1230004\tHOST_ONLY_CODE_B\n0x40c0014\tHOST_RENAMED_open\n'
 
 
 class host_environment:
     """Context manager: the process looks like it runs on the simulated host - TZ set (POSIX form, no tz database needed),
-    and on hosts that ship it a system-wide trace.codes file visible through open / os.path / pathlib."""
+    the file-system / locale encodings the interpreter reports, and on hosts that ship it a system-wide trace.codes file visible through open / os.path / pathlib."""
 
     def __init__(self, host):
         self.host = host
@@ -131,6 +135,19 @@ class host_environment:
             os.environ['TZ'] = tz
             time.tzset()
         self._patched = []
+        enc = HOST_ENC.get(self.host)
+        if enc is not None:
+            import locale
+            import sys
+            name, errors = enc
+            subs = [(sys, 'getfilesystemencoding', lambda: name), (sys, 'getfilesystemencodeerrors', lambda: errors),
+                    (locale, 'getpreferredencoding', lambda do_setlocale=True: name), (locale, 'getencoding', lambda: name),
+                    (os, 'fsdecode', lambda b: b if isinstance(b, str) else bytes(os.fspath(b)).decode(name, errors)),
+                    (os, 'fsencode', lambda t: t if isinstance(t, bytes) else os.fspath(t).encode(name, errors))]
+            for obj, attr, fn in subs:
+                if hasattr(obj, attr):
+                    self._patched.append((obj, attr, getattr(obj, attr)))
+                    setattr(obj, attr, fn)
         if self.host in ('darwin', 'scrambled-2'):
             real_open, real_exists, real_isfile = builtins.open, os.path.exists, os.path.isfile
             p_exists, p_isfile, p_open, p_read = pathlib.Path.exists, pathlib.Path.is_file, pathlib.Path.open, pathlib.Path.read_text
@@ -152,7 +169,7 @@ class host_environment:
             pathlib.Path.is_file = lambda self_, *a, **k: True if is_it(self_) else p_isfile(self_, *a, **k)
             pathlib.Path.open = lambda self_, mode='r', *a, **k: fake_open(self_, mode) if is_it(self_) else p_open(self_, mode, *a, **k)
             pathlib.Path.read_text = lambda self_, *a, **k: EXTRA_CODES if is_it(self_) else p_read(self_, *a, **k)
-            self._patched = [(builtins, 'open', real_open), (os.path, 'exists', real_exists), (os.path, 'isfile', real_isfile),
+            self._patched += [(builtins, 'open', real_open), (os.path, 'exists', real_exists), (os.path, 'isfile', real_isfile),
                              (pathlib.Path, 'exists', p_exists), (pathlib.Path, 'is_file', p_isfile), (pathlib.Path, 'open', p_open),
                              (pathlib.Path, 'read_text', p_read)]
         return self
